@@ -199,13 +199,21 @@ Print Assumptions C14_xtext_iff.
 
 (** Address literals.  In all theorems above the text inside the brackets is judged by the ORACLE pton4 / pton6
     (inet_pton of libc).  About the reference implementation the extracted model runs (Model/InetPton.v, glibc's
-    algorithm, compared with libc by the differential run): the IPv4 text it accepts is exactly
-    Snum "." Snum "." Snum "." Snum, Snum = decimal 0..255 without a leading zero ([dotted_quad]; RFC 5321 would also
-    allow 1*3DIGIT with leading zeros, glibc does not).  For IPv6 only the character contract (C14_oracle_ref) is
-    proved; its grammar is covered by the differential run only. *)
+    algorithm, compared with libc by the differential run) the accepted language is proved:
+    IPv4: exactly Snum "." Snum "." Snum "." Snum, Snum = decimal 0..255 without a leading zero ([dotted_quad];
+    RFC 5321 would also allow 1*3DIGIT with leading zeros, glibc does not). *)
 Theorem C14_ipv4_literal : forall s, pton4_ref s = true <-> dotted_quad s.
 Proof. exact pton4_ref_iff. Qed.
 Print Assumptions C14_ipv4_literal.
+
+(** IPv6: exactly the grammar [ip6_text] of Spec/AddrGrammar.v -- groups of 1..4 hex digits separated by single
+    colons, at most one "::" (which must stand for at least one group: with it fewer than 16 bytes may be written,
+    without it exactly 16), optionally ending in a dotted quad worth 4 bytes; a leading or trailing single colon is
+    refused.  (Wider than RFC 5321 IPv6-comp, which allows at most 6 groups around "::"; inet_pton allows 7, as
+    RFC 4291 does.) *)
+Theorem C14_ipv6_literal : forall s, pton6_ref s = true <-> ip6_text s.
+Proof. exact pton6_ref_iff. Qed.
+Print Assumptions C14_ipv6_literal.
 
 (** the hypotheses are met by non-trivial inputs *)
 Definition ex_line : bytes :=     (* @a.example.org,@b.example.org:Foo@Bar.example.com> x *)
